@@ -131,6 +131,7 @@ func dirName(d int) string {
 //	ovl    conv I P      ... as two segments [0,P) [P-1,len) (one byte sent twice)
 //	swap   conv I        packets I and I+1 of the conversation exchange their capture positions
 //	retx   conv I P Mode a copy (full | head | tail half) of data packet I follows packet P (P>=I)
+//	dup    conv I P      an exact copy of the SYN, SYN-ACK or FIN segment I follows packet P (P = I or I+1)
 //	tie    -    I        packet I+1 of the whole capture carries the same timestamp as packet I
 //	frag   conv I P Mode IPv4 packet I (with payload) travels as two IP fragments, the second starting at
 //	                     byte 8*P of the IP payload (transport header included); Mode "rev": the last
@@ -153,6 +154,8 @@ func (d Dev) String() string {
 		return fmt.Sprintf("retx(c%d.%d>%d,%s)", d.Conv, d.I, d.P, d.Mode)
 	case "tie":
 		return fmt.Sprintf("tie(%d)", d.I)
+	case "dup":
+		return fmt.Sprintf("dup(c%d.%d>%d)", d.Conv, d.I, d.P)
 	case "frag":
 		return fmt.Sprintf("frag(c%d.%d@%d%s)", d.Conv, d.I, d.P*8, d.Mode)
 	}
@@ -649,6 +652,17 @@ func applyConvDev(list []*Pkt, d Dev) ([]*Pkt, error) {
 		out := append([]*Pkt{}, list[:d.P+1]...)
 		out = append(out, c)
 		return append(out, list[d.P+1:]...), nil
+	case "dup":
+		// an exact copy of a handshake or closing segment (a retransmitted SYN, SYN-ACK or FIN) follows packet P
+		if p.UDP || !(p.SYN || p.FIN) || p.RST || d.P < d.I || d.P > d.I+1 || d.P >= len(list) || p.FragPart != 0 || p.Retx {
+			return nil, fmt.Errorf("%v: no handshake or closing segment to repeat", d)
+		}
+		c := cp(p)
+		c.Retx = true
+		c.Gap = 0
+		out := append([]*Pkt{}, list[:d.P+1]...)
+		out = append(out, c)
+		return append(out, list[d.P+1:]...), nil
 	case "frag":
 		hdr := 20
 		if p.UDP {
@@ -696,6 +710,12 @@ func enumConvDevs(list []*Pkt, conv int) []Dev {
 		d := Dev{Kind: "swap", Conv: conv, I: i}
 		if _, err := applyConvDev(list, d); err == nil {
 			out = append(out, d)
+		}
+		for pos := i; pos <= i+1; pos++ {
+			d := Dev{Kind: "dup", Conv: conv, I: i, P: pos}
+			if _, err := applyConvDev(list, d); err == nil {
+				out = append(out, d)
+			}
 		}
 		if p.Retx {
 			continue
